@@ -21,16 +21,18 @@ def epochs(S, sig_len, epoch_len, centre):
 
 
 def limit_table(S, fs, start, stop, reset_indices, centre):
-    """rows whose last side extremum is >= start*fs (start None -> 0) and, when stop is given, whose next side extremum is
-    <= stop*fs; with reset_indices every sample column shifted by int(fs*start)"""
+    """rows whose last side extremum lies at a time >= start (start None -> 0) and, when stop is given, whose next side extremum lies at a
+    time <= stop -- compared in seconds (sample / fs), which is exact for limits on the sample grid, not in samples (start * fs can fall
+    just above the integer it stands for and drop the cycle that starts exactly there); with reset_indices every sample column is shifted
+    by int(round(fs*start))"""
     side = 'trough' if centre == 'peak' else 'peak'
     start = 0 if start is None else start
-    S = S[S['sample_last_' + side].values >= start * fs]
+    S = S[S['sample_last_' + side].values / fs >= start]
     if stop is not None:
-        S = S[S['sample_next_' + side].values <= stop * fs]
+        S = S[S['sample_next_' + side].values / fs <= stop]
     if reset_indices:
         for col in [c for c in S.columns if c.startswith('sample_')]:
-            S[col] = S[col] - int(fs * start)
+            S[col] = S[col] - int(round(fs * start))
     return S
 
 
